@@ -194,7 +194,7 @@ func eval(c Case) (problems []string, key string) {
 	}
 	failAt = "<none>"
 	execs = nil
-	prefixSame := len(c.New) >= c.K && reflect.DeepEqual(c.New[:c.K], oldS[:c.K])
+	prefixSame := len(c.New) >= c.K && sameStrings(c.New[:c.K], oldS[:c.K])
 	var rerr error
 	func() {
 		defer func() {
@@ -286,6 +286,19 @@ func eval(c Case) (problems []string, key string) {
 	return
 }
 
+// sameStrings: element-wise equality (a nil and an empty slice are the same empty prefix).
+func sameStrings(a, b []string) bool {
+	if len(a) != len(b) {
+		return false
+	}
+	for i := range a {
+		if a[i] != b[i] {
+			return false
+		}
+	}
+	return true
+}
+
 func totalKey(c Case) string {
 	if c.K == 0 {
 		return "resume-after-first-statement-failure-keeps-old-total"
@@ -339,7 +352,7 @@ func Run(r *report.Run) {
 		r.Case(fmt.Sprintf("%d|%d|%d|%d|%v|%v", c.N, c.K, c.Layout, c.Mode, c.New, c.Reuse), c.Edit != "none")
 		kinds[strings.Split(c.Edit, "@")[0]]++
 		o := old(c.N)
-		if len(c.New) >= c.K && reflect.DeepEqual(c.New[:c.K], o[:c.K]) {
+		if len(c.New) >= c.K && sameStrings(c.New[:c.K], o[:c.K]) {
 			resumed++
 		} else {
 			refused++
